@@ -135,10 +135,26 @@ def run(ctx, res):
     g = cfgmod.Cfg(body)
     loops = g.loops()
     partial_decode(res, body, g, loops)
-    if len(loops) != 1:
-        res.errors.append("trapa_emulate_mes2: expected one loop, found %d" % len(loops))
+    # the copy loop, by role: the loop (in the gate or in a helper it calls) that reads guest bytes; none: the copy may be
+    # written as an iterator collect (virtual loop, see m_collect)
+    cgraph = cfgmod.CallGraph(facts)
+    cands = []
+    for bk in [k_mes[0]] + sorted(k_ for k_ in cgraph.reachable(k_mes[0]) if k_ in facts.bodies and k_ != k_mes[0]):
+        if "addressing_mode" in bk or bk.startswith("bus::"):
+            continue
+        bb_ = facts.bodies[bk]
+        for h_, blocks_ in cfgmod.Cfg(bb_).loops().items():
+            if any(bb_["blocks"][x_]["term"]["k"] == "call" and ("read_abs" in (bb_["blocks"][x_]["term"]["callee"]["path"] or "") or
+                                                               (bb_["blocks"][x_]["term"]["callee"]["path"] or "").endswith("Bus::read")) for x_ in blocks_):
+                cands.append((bk, h_, blocks_))
+    if len(cands) > 1:
+        res.errors.append("the MES gate has %d loops that read guest bytes: the copy loop is not identified" % len(cands))
         return
-    header = list(loops)[0]
+    loop_body_key = cands[0][0] if cands else None
+    header = cands[0][1] if cands else None
+    loop_blocks = cands[0][2] if cands else ()
+    if loop_body_key is not None and loop_body_key != k_mes[0]:
+        partial_decode(res, facts.bodies[loop_body_key], cfgmod.Cfg(facts.bodies[loop_body_key]), cfgmod.Cfg(facts.bodies[loop_body_key]).loops())
     names = {l["n"]: i for i, l in enumerate(body["locals"]) if l["n"]}
     snap = {}
 
@@ -195,6 +211,63 @@ def run(ctx, res):
         i = st.count("ctl")
         okv = bv.ctl_var("sent", i)
         return [(okv, Enum(models.OK, [UNIT])), (bv.M.NOT(okv), Enum(models.ERR, [Opaque("senderr")]), lambda s: s.tag("prim-failed"))]
+    # ---- the copy written as (0..len).map(|i| read(buf + i)).collect::<Result<Vec<u8>>>(): analysed as the same virtual loop
+    def m_map(ip_, st, fr, t, args):
+        rng = args[0]
+        try:
+            cty = ip_.types[ip_.operand_ty(t["args"][1])]
+        except Exception:
+            cty = {}
+        if not (isinstance(rng, Agg) and len(rng.fields) == 2 and all(isinstance(x, Int) and len(x.bits) == 32 for x in rng.fields)) or cty.get("k") != "closure" \
+                or cty.get("path") not in ip_.f.bodies:
+            return None
+        return Opaque("mapiter", (rng, cty["path"], args[1]))
+
+    def m_collect(ip_, st, fr, t, args):
+        it = args[0]
+        if not (isinstance(it, Opaque) and it.tag == "mapiter"):
+            return None
+        rng, ckey, clos = it.data
+        rt = ip_.types[t["dest"]["ty"]]
+        if not (rt.get("k") == "adt" and (rt.get("path") or "").endswith("result::Result")):
+            return None
+        start, end = rng.fields
+        snap["base"] = (rng, Opaque("bytevec", ("empty",)), st.pc, st.eff)
+        snap["roots"] = (None, None)
+        snap["virtual"] = True
+        pre_eff = st.eff
+        cbody = ip_.f.bodies[ckey]
+        envt = ip_.types[cbody["locals"][1]["ty"]]
+        env = clos
+        if envt["k"] == "ref" and not isinstance(clos, Ref):
+            tmp = ("tmpenv", st.count("tmpenv"))
+            st.mem[tmp] = clos
+            env = Ref(tmp, ())
+        inb = bv.ult(idx_var, end.bits)
+
+        def pre_step(s):
+            s.eff = pre_eff + (("loop-head",), ("iter", idx_var))
+
+        def step_done(st2, ret):
+            if isinstance(ret, Enum) and ret.variant == models.OK and ret.fields and isinstance(ret.fields[0], Int):
+                byte = ret.fields[0].bits
+
+                def fin(s, byte=byte):
+                    s.add_eff(("push",))
+                    s.add_eff(("back", bv.add(idx_var, bv.const(1, 32)), ("push", ("prefix", idx_var), byte)))
+                return [("stop", None, fin)]
+            if isinstance(ret, Enum) and ret.variant == models.ERR:
+                return ret          # the first failing element ends the collection with that error
+            st2.tag("unknown-callee")
+            return ret
+
+        def exit_hook(s):
+            s.eff = pre_eff + (("loop-head",), ("iter-done",))
+        return [("call", inb, ckey, [env, Int(idx_var)], step_done, pre_step),
+                (Mx_NOT(inb), Enum(models.OK, [Opaque("bytevec", ("prefix", idx_var))]), exit_hook)]
+    Mx_NOT = bv.M.NOT
+    ip.models["std::iter::Iterator::map"] = m_map
+    ip.models["std::iter::Iterator::collect"] = m_collect
     ip.models["<I as std::iter::IntoIterator>::into_iter"] = m_into_iter
     ip.models["std::iter::range::<impl std::iter::Iterator for std::ops::Range<A>>::next"] = m_range_next
     ip.models["std::vec::Vec::<T>::new"] = m_vec_new
@@ -206,8 +279,9 @@ def run(ctx, res):
     ip.primitives[k_stdout[0]] = p_stdout
     idx_var = bv.data_bv("i", 32)
     carried = set()
-    for b_ in loops[header]:
-        bl_ = body["blocks"][b_]
+    lbody = facts.bodies[loop_body_key] if loop_body_key else body
+    for b_ in loop_blocks:
+        bl_ = lbody["blocks"][b_]
         for s_ in bl_["st"]:
             if s_["k"] == "assign" and not s_["p"]["p"]:
                 carried.add(s_["p"]["l"])
@@ -247,7 +321,9 @@ def run(ctx, res):
             return "continue"
         st.add_eff(("back", st.mem[rng_root].fields[0].bits, st.mem[vec_root].data))
         return "stop"
-    ip.block_hooks[(k_mes[0], header)] = at_header
+    if header is not None:
+        ip.block_hooks[(loop_body_key, header)] = at_header
+        ip.hooks_any_depth = True
     # the hook must fire inside a callee frame too
     orig_hooks = ip.block_hooks
     cpu = I.fresh_cpu()
